@@ -82,6 +82,11 @@ func init() {
 		Stubs:  []string{"math/rand source of the embedded bucket skip list (tower-height words from the run seed)", "time.Now (seed of that PRNG)"},
 		Rule:   "cases = (bucket keys, tower-word distribution, operations Add/Remove/Contains/Len, arithmetic runs of 300..5000 values added/removed ascending/descending/shuffled so buckets cross 4096 both ways, enumerations by Iter/Range/All complete and early-stopped) drawn from the run seed; non-trivial = the bucket list drew >=2 tower words and (a non-production tower distribution was in force or a conversion/emptying/re-population probe fired); distinct = distinct hash of (params, operations, env seed) over such runs",
 		Assume: seqAssume}
+	props["C09"] = &propCfg{ID: "C09", Engine: "C", Pkgs: "cryptz", Imports: "crypto/rand=scrand", Level: "fault_enumeration", QuickS: 20, ThorS: 480,
+		Real:   []string{"cryptz/crypt.go, cryptz/aes.go, strz/enc.go (every statement)", "Go standard crypto (aes, cipher, md5) inside golib"},
+		Stubs:  []string{"crypto/rand.Reader (seeded/extreme bytes, short reads, errors)", "io.Reader peer (7 chunking policies, error after k bytes, data together with EOF or error, zero-length reads)", "io.Writer peer (error after k bytes)", "storage/transport medium (bit flips per field, truncation, extension, text substitution, wrong secret/AAD)"},
+		Rule:   "cases = (scenario of 8 classes, plaintext/secret/AAD lengths, generic instantiation string|[]byte, entropy plan, reader and writer chunking policies, fault position, medium fault kind/position/bit) drawn from the run seed, fault-free and faulted classes kept apart; non-trivial = at least one fault or non-default peer behaviour actually fired (short/zero/EOF-with-data read, peer error, entropy error/short read/extreme bytes, medium fault, garbage input); distinct = distinct hash of (params, env seed) over such runs",
+		Assume: append([]string{"the reference derivation (crypto/md5, crypto/aes, cipher.NewCBCEncrypter/NewGCM/NewCTR of the Go standard library) is EVP_BytesToKey(MD5, 1 round) / openssl enc -aes-256-cbc -md md5", "a hex substitution that decodes to the same bytes is not a difference of the encoded message"}, seqAssume...)}
 }
 
 var scratch string
